@@ -590,7 +590,7 @@ def run_check(driver: Driver, argv=None):
     driver.teardown()
 
     if proof_broken:
-        anyinput = any(v.found_input for v in violations)
+        anyinput = any(v.found_input and match_known(pid, v.signature, findings) is None for v in violations)
         if not anyinput:
             violations.append(Violation("proof", "proof-broken",
                                         "proof obligations no longer check: " + " | ".join(proof["failures"])[:3000],
